@@ -37,8 +37,7 @@ ListsQuick == {L0,
                [js |-> <<1, 2>>, all |-> <<2, 1>>, print |-> <<1>>],
                [js |-> <<2>>,    all |-> <<1, 3>>, print |-> <<2>>]}
 ListsThorough == ListsQuick \cup
-              {[js |-> <<2, 1>>, all |-> <<3>>,    print |-> <<1, 2>>],
-               [js |-> <<3, 1>>, all |-> <<2, 3>>, print |-> <<2, 1>>]}
+              {[js |-> <<2, 1>>, all |-> <<3>>,    print |-> <<1, 2>>]}
 ListsTiny == {L0, [js |-> <<1, 2>>, all |-> <<2>>, print |-> <<>>]}
 ListsRel == {[js |-> <<1>>, all |-> <<>>, print |-> <<>>],
              [js |-> <<2, 1>>, all |-> <<1>>, print |-> <<>>]}
@@ -124,6 +123,13 @@ ImplSets(K, D, c) ==
   [t \in Types |-> Range(ImplMedia(K, st, c)[t])]
 InheritOnlyOnShape ==
   \A c \in 1..N(kase) : (nacc = 0 /\ Valid(kase) /\ ImplSets(kase, {"inherit"}, c) # MediaVal(kase, c)) => InheritShape(kase, c)
+
+\* the pairwise flattened merge contradicts the specification only on its named shape
+ImplLists(K, D, c) ==
+  LET st == ImplFill(K, D, [memo |-> <<>>, resolved |-> 1..N(K)], c) IN ImplMedia(K, st, c)
+FlattenOnlyOnShape ==
+  \A c \in 1..N(kase), t \in Types :
+     (nacc = 0 /\ Valid(kase) /\ ~MediaOK(ImplLists(kase, {"flatten"}, c)[t], kase, c, t)) => FlattenShape(kase, c, t)
 
 (* ---- export -------------------------------------------------------------------- *)
 \* one line per hierarchy: the classes, and what MediaInherit expects for the LAST class (the
